@@ -19,6 +19,7 @@ FUNCTIONS = [
 ]
 ASSUMPTIONS = [
     "engine B: declared weights are z3 Reals (exact arithmetic) stored in the declarations of real classes; Grammar.get_weights and the whole of Grammar.update_weights are interpreted from the current source (repository calls over concrete arguments - Grammar.__init__, register_type, preprocess - run natively); rule structure concrete: one rule of 1-4 productions, two independent rules, two- and three-level nesting; every listed subset of productions declared (the others count as weight one); three successive extractions",
+    "rules of at most 4 productions: with 5 symbolic weights in one rule z3 answered unknown (120 s) on 2 of 31 declared subsets and overran its timeout on one - outside the claim",
     "precondition: every rule has at least one positive weight (an all-zero rule cannot be normalised; the property does not say what should happen)",
     "repeated real extraction is compared with tolerance 1e-9 relative (one-ulp float drift is not a finding)",
 ]
